@@ -135,7 +135,8 @@ fn csv(s: &str) -> Vec<String> {
   if s == "-" { Vec::new() } else { s.split(',').map(|x| x.to_string()).collect() }
 }
 
-/// Arithmetic fragment: `A cs hexname` | `U cs hexop e` | `B cs hexop ocs l r`; `None` = outside.
+/// Expression fragment: `A cs hexname` | `U cs hexop e` | `B cs hexop ocs l r` | `F cs obj ncs hexname` |
+/// `K cs callee scs n args.. ecs`; `false` = outside the fragment.
 fn dump_aexpr(
   heap: &Heap,
   store: &samlang_ast::source::CommentStore,
@@ -176,6 +177,32 @@ fn dump_aexpr(
       out.push(cs(u.common.associated_comments));
       out.push(hex(u.operator.kind_str().as_bytes()));
       dump_aexpr(heap, store, &u.argument, out)
+    }
+    E::FieldAccess(f) if f.explicit_type_arguments.is_none() => {
+      out.push("F".into());
+      out.push(cs(f.common.associated_comments));
+      if !dump_aexpr(heap, store, &f.object, out) {
+        return false;
+      }
+      out.push(cs(f.field_name.associated_comments));
+      out.push(hex(f.field_name.name.as_str(heap).as_bytes()));
+      true
+    }
+    E::Call(c) => {
+      out.push("K".into());
+      out.push(cs(c.common.associated_comments));
+      if !dump_aexpr(heap, store, &c.callee, out) {
+        return false;
+      }
+      out.push(cs(c.arguments.start_associated_comments));
+      out.push(c.arguments.expressions.len().to_string());
+      for a in &c.arguments.expressions {
+        if !dump_aexpr(heap, store, a, out) {
+          return false;
+        }
+      }
+      out.push(cs(c.arguments.ending_associated_comments));
+      true
     }
     E::Binary(b) => {
       out.push("B".into());
